@@ -126,6 +126,22 @@ def run(facts, rep, tier, ctx):
         if w12.present():
             from .c10 import _Prefixed as _Pf12
             _c05k.is_kind_rules(facts, _c05k._P5(rep if not w12.asyncw else _Pf12(rep, "A"), "R11.12k"), w12, D)
+    # R11.13 the walks of copy_dir / remove_dir_all list what is there: the in-memory listing keeps exactly the keys below `dir + "/"`
+    # (a range scan that stops at the first key not starting with the prefix loses children behind a sibling like `dir.json`), and a
+    # refused native two-path operation leaves the map as it was (the source is not taken out before the destination is known to be
+    # acceptable) — C05 R05.4, C01 R01.3
+    for w13 in (ws, World(facts, True)):
+        if not w13.present():
+            continue
+        from .c10 import _Prefixed as _Pf13
+        _c05k.memory_listing_rules(facts, _c05k._P5(rep if not w13.asyncw else _Pf13(rep, "A"), "R11.13l"), w13, D)
+        scr13 = Report("f")
+        f13, n13, mm13 = c01.table_m(facts, scr13, "M", "Mk", self_ty=w13.memory, trait=w13.trait.rsplit("::", 1)[1],
+                                     ops_filter=("remove_file", "remove_dir") + c01.TWO_PATH_OPS, atomic=True)
+        c01.failed_primitive_unchanged(facts, scr13, "F", mm13)
+        for o in scr13.obligations:
+            if o["rule"] == "F" or (o["rule"] == "M" and "destination vacant" in o["key"]):
+                rep.ob(("A/" if w13.asyncw else "") + "R11.13f", o["fn"], o["key"].split("|")[2], o["ok"], o["detail"], o["loc"])
     # (the segment loop of create_dir_all visits every separator and the end of the path: its slicing sites keep the reviewed
     # cursor shape — a loop bound that stops one byte early never creates a final one-byte component yet answers Ok; C13 records)
     from . import c13 as _c13p
